@@ -278,8 +278,31 @@ pub fn suite<S: HasR, const N: usize>(mon: &mut Monitor, api: &SteerApi<S, N>) {
                 let lg = vlen(&rg).to_f64();
                 let ltol = 8.0 * eps * (la.max(lbn)) + tol * el.abs();
                 c.ratio_t(if near_anti { "slerp length (near antiparallel)" } else { "slerp length" }, (lg - el.abs()).abs() / ltol);
+                // The two recorded findings (known_findings.json: F-vslerp-antiparallel, F-dvslerp-nearparallel) are accuracy
+                // losses with a known envelope; anything outside that envelope is tagged "gross" and is not covered by them.
+                //   near-opposite, general branch: error ~ eps / sin^2(theta);  fall-back branch (|cos| >= 1 - 3e-7): the
+                //   length is exact and the direction is off by at most the distance of b from -a;
+                //   near-parallel fall-back (lerp): angle off by at most theta, length by theta^2.
+                // which branch the implementation takes is decided by its own rounded cosine (a handful of roundings, each
+                // <= eps/2, typically ~1 eps in total): only inputs at least 5 eps away from the 1 - 3e-7 threshold are
+                // attributed to one branch (for f32 that leaves 1 - |cos| <= 1e-9 for the fall-back), the rest get the union.
+                let dth = if near_anti { core::f64::consts::PI - theta } else { theta };
+                let omc = 2.0 * (dth / 2.0).sin().powi(2); // 1 - |cos theta|
+                let in_fallback = omc <= 3e-7 - (5.0 * eps).min(3e-7 - 1e-9);
+                let in_general = omc >= 3e-7 + 5.0 * eps;
+                let s2 = (theta.sin() * theta.sin()).max(2.5e-7);
+                let (genv_len, genv_ang) = if near_anti {
+                    let g = 8.0 * eps / s2;
+                    let fb = 2.0 * (core::f64::consts::PI - theta) + 64.0 * eps;
+                    if in_fallback { (32.0 * eps, fb) } else if in_general { (g, g) } else { (g, g.max(fb)) }
+                } else {
+                    (theta * theta + 64.0 * eps / s2.max(theta * theta), theta + 64.0 * eps / s2.max(theta * theta).sqrt())
+                };
                 if !((lg - el.abs()).abs() <= ltol) {
-                    fail(&mut c, "interp", &["slerp", "length", zone], &inp, format!("{:e}", lg), format!("{:e}", el), "length must be linearly interpolated".into());
+                    let gross = !((lg - el.abs()).abs() <= ltol + genv_len * la.max(lbn));
+                    if near_anti { c.ratio_t("slerp length (near antiparallel) vs known envelope", (lg - el.abs()).abs() / (ltol + genv_len * la.max(lbn))); }
+                    let tags: &[&str] = if gross { &["slerp", "length", zone, "gross"] } else { &["slerp", "length", zone] };
+                    fail(&mut c, "interp", tags, &inp, format!("{:e}", lg), format!("{:e}", el), "length must be linearly interpolated".into());
                 }
                 // angle from the start = s * theta (for s in [0,1]); extrapolation keeps the same law in magnitude
                 if lg > 0.0 && el.abs() > 1e-3 * la.max(lbn) {
@@ -287,12 +310,17 @@ pub fn suite<S: HasR, const N: usize>(mon: &mut Monitor, api: &SteerApi<S, N>) {
                     let want = (sf * theta).abs().min(2.0 * core::f64::consts::PI - (sf * theta).abs());
                     c.ratio_t(if near_anti { "slerp angle (near antiparallel)" } else { "slerp angle" }, (from_start - want).abs() / tol);
                     if !((from_start - want).abs() <= tol) {
-                        fail(&mut c, "interp", &["slerp", "angle", zone], &inp, format!("angle from start {:e}", from_start), format!("{:e}", want), "angle from the start must be s times the total angle".into());
+                        let gross = !((from_start - want).abs() <= tol + genv_ang);
+                        if near_anti { c.ratio_t("slerp angle (near antiparallel) vs known envelope", (from_start - want).abs() / (tol + genv_ang)); }
+                        let tags: &[&str] = if gross { &["slerp", "angle", zone, "gross"] } else { &["slerp", "angle", zone] };
+                        fail(&mut c, "interp", tags, &inp, format!("angle from start {:e}", from_start), format!("{:e}", want), "angle from the start must be s times the total angle".into());
                     }
                     if theta.sin().abs() > 1e-3 && sf >= 0.0 && sf <= 1.0 {
                         let to_end = angle_between(&rg, &rb);
                         if !((to_end - (1.0 - sf) * theta).abs() <= tol) {
-                            fail(&mut c, "interp", &["slerp", "plane", zone], &inp, format!("angle to end {:e}", to_end), format!("{:e}", (1.0 - sf) * theta), "result must lie on the arc between the operands".into());
+                            let gross = !((to_end - (1.0 - sf) * theta).abs() <= tol + genv_ang);
+                            let tags: &[&str] = if gross { &["slerp", "plane", zone, "gross"] } else { &["slerp", "plane", zone] };
+                            fail(&mut c, "interp", tags, &inp, format!("angle to end {:e}", to_end), format!("{:e}", (1.0 - sf) * theta), "result must lie on the arc between the operands".into());
                         }
                     }
                 }
